@@ -106,7 +106,7 @@ def main():
     ck.do_build()
     rnd = random.Random(ck.seed)
     quick = ck.tier == "quick"
-    cases = genrun.corpus_cases() + genrun.big_token_cases()
+    cases = genrun.corpus_cases() + genrun.big_token_cases() + genrun.order_terminal_cases()
     cases += genrun.gen_cases(rnd, 120 if quick else 2500)
     cases += bad_list_cases(rnd, 28 if quick else 280)
     recs = genrun.run_batch(ck, cases, seeds_per_case=2 if quick else 4, what=("struct", "mass", "choices"), seed_base=ck.seed * 7919,
